@@ -84,8 +84,32 @@ fn compact(ts: TokenStream) -> String {
     s
 }
 
+fn cfg_strs(attrs: &[syn::Attribute]) -> Vec<String> {
+    let mut v = vec![];
+    for a in attrs {
+        if a.path().is_ident("cfg") {
+            if let syn::Meta::List(l) = &a.meta {
+                v.push(compact(l.tokens.clone()));
+            }
+        }
+    }
+    v
+}
+
+fn cfg_node(out: &mut Vec<String>, attrs: &[syn::Attribute], span: (usize, usize)) {
+    let c = cfg_strs(attrs);
+    if !c.is_empty() {
+        out.push(format!(
+            "{{\"span\":{},\"cfg\":[{}]}}",
+            sp(span),
+            c.iter().map(|x| js(x)).collect::<Vec<_>>().join(",")
+        ));
+    }
+}
+
 #[derive(Default)]
 struct Inner {
+    cfg_nodes: Vec<String>,
     loops: Vec<String>,
     tries: Vec<String>,
     macros: Vec<String>,
@@ -103,6 +127,18 @@ impl<'ast> Visit<'ast> for Inner {
     }
     fn visit_item(&mut self, _i: &'ast syn::Item) {
         // nested items are not part of the function's own control flow
+    }
+    fn visit_arm(&mut self, a: &'ast syn::Arm) {
+        cfg_node(&mut self.cfg_nodes, &a.attrs, br(a.span()));
+        visit::visit_arm(self, a);
+    }
+    fn visit_local(&mut self, l: &'ast syn::Local) {
+        cfg_node(&mut self.cfg_nodes, &l.attrs, br(l.span()));
+        visit::visit_local(self, l);
+    }
+    fn visit_field_value(&mut self, f: &'ast syn::FieldValue) {
+        cfg_node(&mut self.cfg_nodes, &f.attrs, br(f.span()));
+        visit::visit_field_value(self, f);
     }
     fn visit_expr_closure(&mut self, c: &'ast syn::ExprClosure) {
         self.closures
@@ -220,6 +256,7 @@ struct Top {
 }
 
 struct AttrVis {
+    cfg_nodes: Vec<String>,
     attrs: Vec<(usize, usize)>,
     vis: Vec<(usize, usize)>,
     pub_insert: Vec<usize>,
@@ -229,6 +266,7 @@ impl<'ast> Visit<'ast> for AttrVis {
         self.attrs.push(br(a.span()));
     }
     fn visit_field(&mut self, f: &'ast syn::Field) {
+        cfg_node(&mut self.cfg_nodes, &f.attrs, br(f.span()));
         match &f.vis {
             syn::Visibility::Inherited => {
                 let pos = match &f.ident {
@@ -243,6 +281,7 @@ impl<'ast> Visit<'ast> for AttrVis {
     }
     fn visit_variant(&mut self, v: &'ast syn::Variant) {
         // enum variant fields have no visibility: only collect attributes
+        cfg_node(&mut self.cfg_nodes, &v.attrs, br(v.span()));
         for a in &v.attrs {
             self.attrs.push(br(a.span()));
         }
@@ -277,7 +316,7 @@ impl Top {
     }
 
     fn emit_simple(&mut self, kind: &str, name: String, item: &syn::Item, vis: &syn::Visibility, attrs: &[syn::Attribute]) {
-        let mut av = AttrVis { attrs: vec![], vis: vec![], pub_insert: vec![] };
+        let mut av = AttrVis { cfg_nodes: vec![], attrs: vec![], vis: vec![], pub_insert: vec![] };
         av.visit_item(item);
         let after_attrs = attrs.iter().map(|a| br(a.span()).1).max();
         let item_vis = match vis {
@@ -291,7 +330,7 @@ impl Top {
         };
         let inner_vis: Vec<String> = av.vis.iter().filter(|v| Some(**v) != ivr).map(|v| sp(*v)).collect();
         let s = format!(
-            "{{\"kind\":{},\"path\":{},\"span\":{},\"attrs\":[{}],\"after_attrs\":{},\"vis\":{},\"field_vis\":[{}],\"pub_insert\":[{}],\"derives\":[{}]}}",
+            "{{\"kind\":{},\"path\":{},\"span\":{},\"attrs\":[{}],\"after_attrs\":{},\"vis\":{},\"field_vis\":[{}],\"pub_insert\":[{}],\"derives\":[{}],\"cfg\":[{}],\"cfg_nodes\":[{}]}}",
             js(kind),
             js(&format!("{}{}", self.prefix(), name)),
             sp(br(item.span())),
@@ -300,7 +339,9 @@ impl Top {
             item_vis,
             inner_vis.join(","),
             av.pub_insert.iter().map(|p| p.to_string()).collect::<Vec<_>>().join(","),
-            derive_list(attrs).iter().map(|d| js(d)).collect::<Vec<_>>().join(",")
+            derive_list(attrs).iter().map(|d| js(d)).collect::<Vec<_>>().join(","),
+            cfg_strs(attrs).iter().map(|d| js(d)).collect::<Vec<_>>().join(","),
+            av.cfg_nodes.join(",")
         );
         self.out.push(s);
     }
@@ -367,7 +408,7 @@ impl Top {
             })
             .collect();
         let s = format!(
-            "{{\"kind\":\"fn\",\"path\":{},\"span\":{},\"attrs\":[{}],\"vis\":{},\"sig\":{},\"ret\":{},\"where\":{},\"body\":{},\"tail\":{},\"trait_impl\":{},\"trait_def\":{},\"is_async\":{},\"params\":[{}],\"loops\":[{}],\"tries\":[{}],\"macros\":[{}],\"returns\":[{}],\"instruments\":[{}],\"closures\":[{}],\"awaits\":[{}]}}",
+            "{{\"kind\":\"fn\",\"path\":{},\"span\":{},\"attrs\":[{}],\"vis\":{},\"sig\":{},\"ret\":{},\"where\":{},\"body\":{},\"tail\":{},\"trait_impl\":{},\"trait_def\":{},\"is_async\":{},\"params\":[{}],\"loops\":[{}],\"tries\":[{}],\"macros\":[{}],\"returns\":[{}],\"instruments\":[{}],\"closures\":[{}],\"awaits\":[{}],\"cfg\":[{}],\"cfg_nodes\":[{}]}}",
             js(&path),
             sp(br(whole)),
             all_attrs.iter().map(|a| sp(*a)).collect::<Vec<_>>().join(","),
@@ -387,7 +428,9 @@ impl Top {
             inner.returns.join(","),
             inner.instruments.join(","),
             inner.closures.join(","),
-            inner.awaits.join(",")
+            inner.awaits.join(","),
+            cfg_strs(attrs).iter().map(|d| js(d)).collect::<Vec<_>>().join(","),
+            inner.cfg_nodes.join(",")
         );
         self.out.push(s);
     }
@@ -442,7 +485,7 @@ impl Top {
                                 v => sp(br(v.span())),
                             };
                             self.out.push(format!(
-                                "{{\"kind\":\"const\",\"path\":{},\"span\":{},\"attrs\":[{}],\"after_attrs\":{},\"vis\":{},\"field_vis\":[],\"pub_insert\":[],\"derives\":[]}}",
+                                "{{\"kind\":\"const\",\"path\":{},\"span\":{},\"attrs\":[{}],\"after_attrs\":{},\"vis\":{},\"field_vis\":[],\"pub_insert\":[],\"derives\":[],\"cfg\":[],\"cfg_nodes\":[]}}",
                                 js(&format!("{}{}::{}", self.prefix(), key, c.ident)),
                                 sp(br(c.span())),
                                 c.attrs.iter().map(|a| sp(br(a.span()))).collect::<Vec<_>>().join(","),
